@@ -16,6 +16,7 @@ type LuaCont struct {
 	registers      []Value
 	cells          []Cell
 	pc             int16
+	depth          int32 // "stack size": registers and varargs of the Lua continuations on the chain of nexts, this one included
 	acc            []Value
 	running        bool
 	borrowedCells  bool
@@ -23,6 +24,30 @@ type LuaCont struct {
 }
 
 var _ Cont = (*LuaCont)(nil)
+
+// maxLuaStackSize is the maximum "stack size" of nested (non tail) Lua calls,
+// counted like the slots of the stack of C Lua (LUAI_MAXSTACK is 1000000): one
+// per call plus its registers and varargs.  Lua calls do not use Go stack but
+// each one keeps a continuation alive, so without a limit a runaway recursion
+// ends only when the host runs out of memory.
+const maxLuaStackSize = 2000000
+
+// luaStackSize returns the stack size of the closest Lua continuation that c
+// leads to (c itself, or the continuation that a Go function or a nested call
+// from Go will return to).
+func luaStackSize(c Cont) int32 {
+	for i := 0; c != nil && i < 4; i++ {
+		switch cc := c.(type) {
+		case *LuaCont:
+			return cc.depth
+		case *Termination:
+			c = cc.parent
+		default:
+			c = c.Next()
+		}
+	}
+	return 0
+}
 
 // NewLuaCont returns a new LuaCont from a closure and next, a continuation to
 // push results into.
@@ -53,6 +78,7 @@ func NewLuaCont(t *Thread, clos *Closure, next Cont) *LuaCont {
 		cells:          cells,
 		borrowedCells:  borrowCells,
 		closeStackBase: t.closeStack.size(),
+		depth:          luaStackSize(next) + int32(clos.RegCount) + 1,
 	}
 	return cont
 }
@@ -78,6 +104,7 @@ func (c *LuaCont) Push(r *Runtime, val Value) {
 			// It's an etc
 			r.RequireSize(unsafe.Sizeof(Value{}))
 			c.acc = append(c.acc, val)
+			c.depth++
 		} else {
 			c.pc++
 			setReg(c.registers, c.cells, dst, val)
@@ -107,6 +134,9 @@ func (c *LuaCont) Parent() Cont {
 
 // RunInThread implements Cont.RunInThread.
 func (c *LuaCont) RunInThread(t *Thread) (Cont, error) {
+	if c.depth > maxLuaStackSize {
+		return nil, errors.New("stack overflow")
+	}
 	pc := c.pc
 	consts := c.consts
 	lines := c.lines
